@@ -160,10 +160,16 @@ void lang_oracle(const std::string& oracle, const std::string& site, const FA& g
 	(mdl::is_empty(want) ? count(c_lang_empty) : count(c_lang_nonempty));
 	if (!e) violation(oracle, site, what + ": language differs from the reference\n  result   : " + mdl::to_lit(got) + "\n  reference: " + mdl::to_lit(want));
 }
+// C09 / C10 speak about languages: an operand must still denote the language it was called with (C11 judges values)
 void operands_unchanged(const Step& s, FAH& a, FAH* b, const std::string& P) {
-	api_end(); count(c_operand_rechecks); FA g; std::string why;
-	if (!read_back(*a.aut, g, &why) || !same_fa(g, a.model)) violation(P + ".operand-unchanged", s.op, "left operand changed by the call " + why + fa_diff(a.model, g));
-	if (b) { FA g2; if (!read_back(*b->aut, g2, &why) || !same_fa(g2, b->model)) violation(P + ".operand-unchanged", s.op, "right operand changed by the call " + why + fa_diff(b->model, g2)); }
+	api_end(); count(c_operand_rechecks);
+	auto chk = [&](FAH& h, const char* which) {
+		FA g; std::string why;
+		if (!read_back(*h.aut, g, &why)) { violation(P + ".operand-unchanged", s.op, std::string(which) + " operand cannot be read after the call: " + why); return; }
+		if (same_fa(g, h.model)) return;
+		if (mdl::equiv(g, h.model, 20000) == 0) violation(P + ".operand-unchanged", s.op, std::string("the language of the ") + which + " operand changed by the call" + fa_diff(h.model, g));
+	};
+	chk(a, "left"); if (b) chk(*b, "right");
 }
 
 // Histories feed results back into operations (X = U n U, then X n X, ...): sizes grow polynomially per step and
@@ -339,8 +345,18 @@ void abort_client(int c, uint64_t seed) {
 	while (!v.empty()) { size_t i = size_t(r.below(v.size())); v.erase(v.begin() + long(i)); count(c_handles_destroyed); }
 	if (armed("C11")) check_all("C11.handle-equals-model", "abort", "abort of client " + std::to_string(c));
 }
+void check_all_languages(const std::string& oracle, const std::string& site, const std::string& after) {
+	api_end();
+	for (size_t c = 0; c < g_cl.size(); ++c) for (size_t i = 0; i < g_cl[c].fa.size(); ++i) {
+		FAH& h = g_cl[c].fa[i]; FA got; std::string why; count(c_reread_handles);
+		if (!read_back(*h.aut, got, &why)) { violation(oracle, site, why + " after " + after); continue; }
+		if (same_fa(got, h.model)) continue;
+		if (mdl::equiv(got, h.model, 20000) == 0) violation(oracle, site, "client " + std::to_string(c) + " finite-automaton handle " + std::to_string(i) + " no longer denotes its language after " + after + fa_diff(h.model, got));
+	}
+}
 void final_check() {
-	if (armed("C11") || armed("C10")) check_all(g_profile + ".handle-equals-model", "<final>", "the end of the run");
+	if (armed("C11")) check_all(g_profile + ".handle-equals-model", "<final>", "the end of the run");
+	else if (armed("C10") || armed("C09")) check_all_languages(g_profile + ".handle-keeps-language", "<final>", "the end of the run");
 	for (auto& c : g_cl) c.fa.clear();
 }
 
